@@ -229,6 +229,11 @@ def gen_scenario(rng: random.Random, name: str, ids=None) -> DScn:
         if n > 1 and k != init and rng.random() < 0.3:
             s.states[k].final = True
     evs = rng.sample(EVENT_POOL, rng.randint(1, 4))
+    if rng.random() < 0.15:
+        # an event named like a state (`open.to(closed, event="closed")`): legal — the class attribute of that
+        # name is then the event, not the state — and irrelevant for the picture
+        evs.append(rng.choice(ids))
+    attr_evs = [e for e in evs if e not in ids]
     nonfinal = [k for k in range(n) if not s.states[k].final]
 
     def rand_events():
@@ -240,13 +245,13 @@ def gen_scenario(rng: random.Random, name: str, ids=None) -> DScn:
     def new_trans(src, tgt, internal=False):
         t = DTrans(src=src, tgt=tgt, internal=internal)
         r = rng.random()
-        if r < 0.45:
+        if r < 0.45 or not attr_evs:
             t.events = rand_events()
         elif r < 0.75:
-            t.attr = rng.choice(evs)
+            t.attr = rng.choice(attr_evs)
         else:
             t.events = rand_events()
-            t.attr = rng.choice(evs)
+            t.attr = rng.choice(attr_evs)
         t.event_as_list = rng.random() < 0.6
         return t
 
